@@ -87,6 +87,10 @@ def run_case(prog, rows, agg):
                     w.update({"field": k, "collect": fa[k], name: fo[k], "exception": a["exc"]})
                     return f"final-{k}-collect-vs-{name}-after-exception", w, 0
         return None, None, 0
+    if b.get("lines_changed_after_yield"):
+        w["yielded"] = b["lines_at_yield"][:6]
+        w["same_objects_after_the_run"] = b["lines"][:6]
+        return "next-yielded-line-changed-afterwards", w, 0
     if a["lines"] != b["lines"]:
         w["collect"] = a["lines"][:5]
         w["next"] = b["lines"][:5]
@@ -159,7 +163,10 @@ def f24_applies(prog, rows, w, agg):
     raised that exception while next() and fast_forward() agree with each other (nothing, or the same later failure), (b) the csvpath keeps unmatched lines and uses collect(...), and (c) the same csvpath
     without 'unmatched-mode: keep' passes every obligation of this check."""
     exc = w.get("exceptions") or {}
-    if not (exc.get("collect") or "").startswith("InputException") or "unknown header name" not in exc["collect"]:
+    ce = exc.get("collect") or ""
+    # (limit_collection raises InputException 'unknown header name' for an index past the line, IndexError for the
+    # 'header not found' sentinel index)
+    if not ((ce.startswith("InputException") and "unknown header name" in ce) or ce.startswith("IndexError")):
         return False
     if exc.get("next") != exc.get("fast_forward"):
         return False  # next() and fast_forward() must still agree with each other (they may fail later, on a matched line)
